@@ -347,10 +347,14 @@ def _classify_cli(rc, stdout, stderr, want_list):
             except Exception:
                 parsed = None
         if want_list and rc == 0:
+            # `list` prints one JSON object on stdout -- `{}` when nothing is selected, never nothing at all
             out["outcome"] = "ok"
             try:
-                out["list"] = json.loads(stdout) if stdout.strip() else {}
+                out["list"] = json.loads(stdout)
+                if not isinstance(out["list"], dict):
+                    raise ValueError("not an object")
             except Exception:
+                out["list"] = None
                 out["outcome"] = "garbled"
         elif not want_list and (parsed is not None or not st) and not (rc == 1 and not st):
             out["outcome"] = "ok"
